@@ -635,11 +635,38 @@ pub fn world_b_limits(property: &str, scenario: &str, seed: u64, run: u64, thoro
         let cad = Cadence { period_us: r.range(5_000, 50_000), jitter: 0.3, stall_p: 0.0, stall_max_us: 0, flush_after_step_p: 0.0 };
         // how the connection ends
         let t_end = (t_create + r.range(3_000_000, horizon / 3)).min(horizon);
-        let ending = r.below(8);
+        let ending = r.below(10);
         if ending != 7 {
             plan.params.insert(format!("created_ep{}", c), 1.0);
         }
         let life = match ending {
+            8 => {
+                // both sides close at about the same time: the server is already closing when
+                // the client's own request arrives
+                let server_first = r.chance(0.7);
+                let skew = r.below(2 * latency + 50_000);
+                let (ts, tc) = if server_first { (t_end, t_end + skew) } else { (t_end + skew, t_end) };
+                plan.push(ts, r.u32() | 1, if r.chance(0.5) { Op::Disconnect { ep: 0, to: Some(c) } } else { Op::DisconnectNow { ep: 0, to: Some(c) } });
+                plan.push(tc, r.u32() | 1, if r.chance(0.5) { Op::Disconnect { ep: c, to: None } } else { Op::DisconnectNow { ep: c, to: None } });
+                horizon
+            }
+            9 => {
+                // the client disconnects, is replaced by a new client object on the same address
+                // within the server's 20 s linger, and that connection outlives the linger
+                plan.push(t_end, r.u32() | 1, Op::DisconnectNow { ep: c, to: None });
+                let t_gone = t_end + r.range(300_000, 2_000_000);
+                plan.push(t_gone, 1, Op::Destroy { ep: c });
+                let t_again = t_gone + r.range(100_000, 12_000_000);
+                cad.steps(&mut r, &mut plan, c, t_create, t_gone.min(horizon), 8000, false);
+                if t_again + 1_000_000 < horizon {
+                    plan.push(t_again, 1, Op::Create { ep: c });
+                    cad.steps(&mut r, &mut plan, c, t_again, horizon, 8000, false);
+                    // it stays until the end of the run: the late-client clause does not apply
+                    last_end = horizon + 60_000_000;
+                }
+                last_end = last_end.max(t_gone);
+                continue;
+            }
             5 | 6 => {
                 // a disconnect by either side, and the application drops the (closing or
                 // closed, still tracked) entry shortly afterwards
@@ -792,6 +819,53 @@ pub fn world_b_spoof(property: &str, scenario: &str, seed: u64, run: u64, thorou
             plan.push(ts, 5, Op::Step { ep: raw });
             ts += 1_000_000;
         }
+    }
+    plan.end_us = horizon;
+    plan.sort();
+    plan
+}
+
+/// C18, long waits: abandoned handshakes watched for five minutes on servers whose (unrelated)
+/// silence timeout is configured long, with and without a trickle of stray non-handshake frames.
+pub fn world_b_spoof_long(property: &str, scenario: &str, seed: u64, run: u64, _thorough: bool) -> Plan {
+    let mut r = Rng::keyed(&[seed, crate::rng::str_key(property), crate::rng::str_key(scenario), run]);
+    let mut plan = Plan::new(property, scenario, seed, run);
+    plan.fate_seed = Some(key(&[seed, run, 0xfa7e]));
+    let n_raw = r.range(1, 3) as usize;
+    let mut scfg = EndpointCfg::default();
+    scfg.active_timeout_ms = *r.pick(&[20_000u64, 120_000, 200_000, 300_000, 511_000, 600_000]);
+    let topo = topology(&mut plan, &mut r, 1, n_raw, scfg, 4096, 32, |_, _| EndpointCfg::default());
+    if let EndpointKind::Server { handshake_errors, .. } = &mut plan.endpoints[0].kind {
+        *handshake_errors = r.chance(0.5);
+    }
+    plan.push(0, 0, Op::Create { ep: 0 });
+    plan.push(0, 2, Op::Link { from: None, to: None, rule: clean_rule(r.range(100, 50_000)) });
+    let horizon = 300_000_000;
+    plan.push(r.below(50_000), 3, Op::StepEvery { ep: 0, period_us: r.range(20_000, 100_000), until_us: horizon });
+    for (k, &raw) in topo.raws.iter().enumerate() {
+        plan.push(0, 1, Op::Create { ep: raw });
+        let t0 = r.range(0, 2_000_000);
+        plan.push(t0, 0x8000_0002, Op::Inject { to: 0, from: raw, bytes: enc_syn(3, 0x2345_6789 + k as u32, 2_000_000, 1000, 1_000_000, 1472), twin: false });
+        if r.chance(0.6) {
+            // a trickle of small frames that mean nothing before the handshake has completed
+            let kind = r.below(4);
+            let mut t = t0 + r.range(100_000, 19_000_000);
+            while t < horizon {
+                let bytes = match kind {
+                    0 => enc_data(r.u32(), false, &[]),
+                    1 => enc_sync(Some(r.u32()), Some(r.u32() & 0xFFFFF)),
+                    2 => enc_ack(r.u32(), r.u32() & 0xFFFFF, &[]),
+                    _ => match r.below(3) {
+                        0 => enc_data(r.u32(), false, &[]),
+                        1 => enc_sync(None, None),
+                        _ => enc_ack(r.u32(), r.u32() & 0xFFFFF, &[(r.u32(), 1, 0)]),
+                    },
+                };
+                plan.push(t, 0x8000_0002, Op::Inject { to: 0, from: raw, bytes, twin: false });
+                t += r.range(3_000_000, 19_000_000);
+            }
+        }
+        plan.push(500_000, 5, Op::StepEvery { ep: raw, period_us: 1_000_000, until_us: horizon });
     }
     plan.end_us = horizon;
     plan.sort();
